@@ -4,7 +4,7 @@
 #![allow(unused_imports)]
 #![allow(static_mut_refs)]
 
-use crate::c02::Enc;
+use crate::common::Enc;
 use crate::common::*;
 use crate::silent::*;
 use gamedig::games::minecraft::{
